@@ -2,6 +2,7 @@
 
 Two kinds of run.
  'ops'       a seeded construction history (new wires, structural and primitive blocks,
+             bundles through wires(), in/out pins of primitives on ordinary wires,
              rename / reparent / reparentAndRename) over a few parents with names drawn from a
              tiny pool so that conflicts are frequent; illegal operations (second driver,
              duplicate child name, duplicate wire name by creation / rename / re-parenting) are
@@ -10,7 +11,8 @@ Two kinds of run.
              the same object as before.
  'integrity' a seeded netlist over the whole catalogue whose primary inputs are driven by
              stimulus blocks: checkIntegrity must accept it; with one driver left out
-             (single fault) it must raise; a duplicated driver must be refused at
+             (single fault) it must raise - also when the wire that lost its driver carries the
+             same name as another wire (of another parent) on a port of the same reader; a duplicated driver must be refused at
              construction and leave the first driver in place.
 """
 import random
@@ -36,10 +38,12 @@ STUB = []
 ASSUMPTIONS = ['a refused rename leaves the renamed wire unregistered: outside the statement, the model follows the library there']
 PROBES = ['refused_second_driver', 'refused_dup_child', 'refused_dup_wire_create', 'refused_dup_wire_rename',
           'refused_dup_wire_reparent', 'accepted_op', 'integrity_accept', 'integrity_missing_driver', 'integrity_dup_driver',
-          'structural_second_driver', 'same_block_second_driver', 'integrity_recheck_after_edit']
+          'structural_second_driver', 'same_block_second_driver', 'integrity_recheck_after_edit', 'integrity_same_name_other_scope',
+          'refused_dup_wire_bundle', 'inout_second_driver', 'inout_on_plain_wire']
 
 NAMES = ['a', 'b', 'c', 'x', 'y']
-BLK = ['Buf', 'Not', 'And2', 'Reg', 'Constant', 'Add', 'Mux2', 'Counter', 'Bits2']
+WNAMES = NAMES + ['a_1', 'b_0', 'a_2']          # single wires that a later bundle a_0.. / b_0.. collides with
+BLK = ['Buf', 'Not', 'And2', 'Reg', 'Constant', 'Add', 'Mux2', 'Counter', 'Bits2', 'BidirBuf']
 
 
 class Grp(Logic):
@@ -53,8 +57,10 @@ def gen(rs, tier, index):
         n = rng.randint(10, 60)
         for _ in range(n):
             r = rng.random()
-            if r < 0.3:
-                ops.append({'op': 'wire', 'parent': rng.randrange(8), 'name': rng.choice(NAMES), 'w': rng.choice([1, 1, 4, 8])})
+            if r < 0.06:
+                ops.append({'op': 'wires', 'parent': rng.randrange(8), 'name': rng.choice(['a', 'b']), 'num': rng.randint(1, 4), 'w': rng.choice([1, 4, 8])})
+            elif r < 0.3:
+                ops.append({'op': 'wire', 'parent': rng.randrange(8), 'name': rng.choice(WNAMES), 'w': rng.choice([1, 1, 4, 8])})
             elif r < 0.4:
                 ops.append({'op': 'grp', 'parent': rng.randrange(8), 'name': rng.choice(NAMES)})
             elif r < 0.7:
@@ -73,7 +79,7 @@ def gen(rs, tier, index):
                            feedback=0.1, seq_kinds=[k for k in kinds if k.seq], seq_frac=0.25)
     fr = rs.get('faults')
     fault = fr.choice(['none', 'omit_node', 'omit_input_driver', 'dup_driver'])
-    return {'mode': 'integrity', 'design': d, 'fault': fault, 'pick': fr.randrange(1 << 30)}
+    return {'mode': 'integrity', 'design': d, 'fault': fault, 'pick': fr.randrange(1 << 30), 'shadow': fr.random() < 0.6}
 
 
 # --------------------------------------------------------------------------- ops mode
@@ -102,7 +108,7 @@ def run_ops(scn, log, st):
 
     for si, op in enumerate(scn['ops'], 1):
         kind = op['op']
-        if kind in ('wire', 'grp', 'blk'):
+        if kind in ('wire', 'wires', 'grp', 'blk'):
             p = parents[op['parent'] % len(parents)]
             pc, pw = children.setdefault(id(p), {}), wires.setdefault(id(p), {})
         if kind == 'wire':
@@ -120,6 +126,33 @@ def run_ops(scn, log, st):
                 pw[nm] = w
                 wlist.append(w)
                 registered[id(w)] = True
+        elif kind == 'wires':
+            # a bundle <prefix>_0 .. <prefix>_{num-1}: refused iff one of the names exists; every earlier wire stays
+            # (the registry comparison below); which of the new names survive a refused call is outside the statement
+            nms = ['%s_%d' % (op['name'], i) for i in range(op['num'])]
+            conflict = any(n_ in pw for n_ in nms)
+            before = dict(pw)
+            res, ws_ = expect_raise(lambda: p.wires(op['name'], op['num'], op['w']), conflict, 'dup-wire-bundle', si)
+            if conflict:
+                st.probe('refused_dup_wire_bundle')
+                refused += 1
+                for n_ in nms:
+                    if n_ in before:
+                        if p._wires.get(n_) is not before[n_]:
+                            raise Violation('earlier-lost', 'earlier-wire-replaced:bundle', si, 'wire %s of %s was removed or replaced by a refused bundle creation' % (n_, p.getFullPath()))
+                    elif n_ in p._wires:
+                        w = p._wires[n_]
+                        pw[n_] = w
+                        wlist.append(w)
+                        registered[id(w)] = True
+            else:
+                accepted += 1
+                if [w.name for w in ws_] != nms or any(p._wires.get(n_) is not w for n_, w in zip(nms, ws_)):
+                    raise Violation('registry', 'bundle-not-registered', si, 'wires(%r, %d) returned %s' % (op['name'], op['num'], [w.name for w in ws_]))
+                for n_, w in zip(nms, ws_):
+                    pw[n_] = w
+                    wlist.append(w)
+                    registered[id(w)] = True
         elif kind == 'grp':
             nm = op['name']
             conflict = nm in pc
@@ -134,6 +167,49 @@ def run_ops(scn, log, st):
                 accepted += 1
                 pc[nm] = g
                 parents.append(g)
+        elif kind == 'blk' and op['kind'] == 'BidirBuf':
+            if not wlist:
+                continue
+            nm = op['name']
+            ws = [wlist[i % len(wlist)] for i in op['ins']]
+            out = wlist[op['out'] % len(wlist)]
+            name_conflict = nm in pc
+            # an in/out pin of a primitive on an ordinary wire is a driver like any other; the block also drives 'pin'
+            poe = next((w for w in wlist if w.getWidth() == 1), None)
+            if poe is None:
+                continue
+            pin = ws[1]
+            old_child, old_pad, old_pin = pc.get(nm), out.source, pin.source
+            pad_conflict = driver.get(id(out)) is not None
+            pin_conflict = driver.get(id(pin)) is not None or pin is out
+            what = 'dup-child' if name_conflict else 'second-driver:inout'
+            res, o = expect_raise(lambda: py4hw.BidirBuf(p, nm, pin, ws[0], poe, out), name_conflict or pad_conflict or pin_conflict, what, si)
+            if name_conflict:
+                st.probe('refused_dup_child')
+                refused += 1
+                if p.children.get(nm) is not old_child or out.source is not old_pad or pin.source is not old_pin:
+                    raise Violation('earlier-lost', 'earlier-replaced:inout', si, 'refused BidirBuf %s changed a child or a driver' % nm)
+            elif pad_conflict or pin_conflict:
+                st.probe('refused_second_driver')
+                st.probe('inout_second_driver')
+                refused += 1
+                if pad_conflict and out.source is not old_pad:
+                    raise Violation('earlier-lost', 'earlier-driver-replaced', si, 'driver of %s replaced by a refused in/out pin' % out.getFullPath())
+                if driver.get(id(pin)) is not None and pin.source is not old_pin:
+                    raise Violation('earlier-lost', 'earlier-driver-replaced', si, 'driver of %s replaced by a refused call' % pin.getFullPath())
+                # outside the statement: ports registered before the refusal stay; follow the library
+                driver[id(out)] = out.source
+                driver[id(pin)] = pin.source
+                if nm in p.children:
+                    pc[nm] = p.children[nm]
+            else:
+                accepted += 1
+                st.probe('inout_on_plain_wire')
+                pc[nm] = o
+                if out.source is None or pin.source is None:
+                    raise Violation('driver-missing', 'driver-not-registered', si, 'BidirBuf %s built but pad or pin has no driver' % nm)
+                driver[id(out)] = out.source
+                driver[id(pin)] = pin.source
         elif kind == 'blk':
             if not wlist:
                 continue
@@ -276,11 +352,13 @@ def run_integrity(scn, log, st):
     d = scn['design']
     fault = scn['fault']
     pick = scn['pick']
-    b = netlist.Built(d)
     ids = list(d['order'])
     omit = None
     if fault == 'omit_node':
         omit = ids[pick % len(ids)]
+        if scn.get('shadow'):
+            d = shadow_names(d, omit, st)
+    b = netlist.Built(d)
     for nid in ids:
         if nid != omit:
             b.add_node(nid)
@@ -358,6 +436,34 @@ def run_integrity(scn, log, st):
     log.add('integrity', fault, bool(raised), h64(repr(d['nodes'])))
     if fault != 'none':
         st.fault(fault)
+
+
+def shadow_names(d, omit, st):
+    """the wire that loses its driver gets the name of the wire on the output of one of its readers (legal: the two
+    wires belong to different parents), so that reader has two ports on different wires with one name"""
+    nodes = {n['id']: n for n in d['nodes']}
+    outs = set(d['outputs'])
+    for j in range(len(nodes[omit]['ow'])):
+        s = 'n%d.%d' % (omit, j)
+        if s in outs:
+            continue
+        readers = [n for n in d['nodes'] if s in n['ins'] and n['id'] != omit]
+        paths = [tuple(nodes[omit]['grp'])] + [tuple(n['grp']) for n in readers]
+        lca = paths[0]
+        for q in paths[1:]:
+            k = 0
+            while k < len(lca) and k < len(q) and lca[k] == q[k]:
+                k += 1
+            lca = lca[:k]
+        for c in readers:
+            if tuple(c['grp']) != lca:
+                continue          # the undriven wire would enter the reader's group through a port of the same name
+            for k in range(len(c['ow'])):
+                o = 'n%d.%d' % (c['id'], k)
+                if o in outs and not (d.get('names') or {}):
+                    st.probe('integrity_same_name_other_scope')
+                    return dict(d, names={s: o.replace('.', '_')})
+    return d
 
 
 def run(scn, log, st):
